@@ -1386,7 +1386,16 @@ func c19PathResult(ip *IterPath, idx int) ssa.Value {
 		return nil
 	}
 	sub := &IterPath{Blocks: blocks, End: "partial"}
-	return sub.Resolve(ret.Results[idx])
+	v := sub.Resolve(ret.Results[idx])
+	// `return i >= 0` with i the result of a search: on this path i is the value it received on the path
+	if x, y, op, isCmp := CmpFact(v, true); isCmp {
+		if _, isPhi := x.(*ssa.Phi); isPhi {
+			if holds, known := c19CmpDecide(sub.Resolve(x), op, y); known {
+				return ssa.NewConst(constant.MakeBool(holds), types.Typ[types.Bool])
+			}
+		}
+	}
+	return v
 }
 
 // c19Exists proves that the boolean function fn returns true exactly when some element of list satisfies
@@ -1440,7 +1449,7 @@ func c19Exists(p *Prog, fn *ssa.Function, tm *Termer, list string, pred func(gs 
 			return "an iteration does not test the element it visits"
 		}
 	}
-	for _, lf := range retLeaves(fn, 0) {
+	for _, lf := range c19BoolLeaves(fn, 0) {
 		if IsConstBool(lf.Val, false) {
 			continue
 		}
@@ -2098,4 +2107,290 @@ func c19AppendedWhenDefined(tm *Termer, as *c19AppendedSeries, nillable map[type
 		}
 	}
 	return ""
+}
+
+// ---- rb7: an index handed out of a search, with a negative "none" value ----
+//
+// `i := firstSolved(); if i >= 0 { use(list[i]) }` - after the search was inlined, i is a phi that receives the
+// index of the loop on the edge that leaves the scan where the element test came out true, and the constant -1
+// on the edge of exhaustion. A comparison of such a phi with a constant is decided alternative by alternative: a
+// constant alternative by arithmetic, a loop index by its lower bound (it starts at 0 and only grows). Where the
+// comparison holds only for some alternatives, control came over one of THEIR edges: what was known on all of
+// those edges is known where the comparison's outcome is, and if they all carry the same value the phi IS that
+// value there. The same reading turns `return i >= 0` into "true on the edge of the hit, false on exhaustion".
+
+// c19LowerBound: an integer constant c with v >= c (ignoring overflow): a constant itself, len/cap, a counter
+// (a loop-header phi whose incoming values are constants and itself plus a positive constant), or such a value
+// plus a constant.
+func c19LowerBound(v ssa.Value, depth int) (int64, bool) {
+	if depth > 4 {
+		return 0, false
+	}
+	switch x := v.(type) {
+	case *ssa.Const:
+		if x.Value != nil && x.Value.Kind() == constant.Int {
+			if k, exact := constant.Int64Val(x.Value); exact {
+				return k, true
+			}
+		}
+	case *ssa.Call:
+		if b, ok := x.Call.Value.(*ssa.Builtin); ok && (b.Name() == "len" || b.Name() == "cap") {
+			return 0, true
+		}
+	case *ssa.Phi:
+		lb, have := int64(0), false
+		for _, e := range x.Edges {
+			if c, isC := e.(*ssa.Const); isC {
+				k, ok := c19LowerBound(c, depth+1)
+				if !ok {
+					return 0, false
+				}
+				if !have || k < lb {
+					lb, have = k, true
+				}
+				continue
+			}
+			b, isB := e.(*ssa.BinOp)
+			if !isB || b.Op != token.ADD {
+				return 0, false
+			}
+			var step ssa.Value
+			switch {
+			case b.X == ssa.Value(x):
+				step = b.Y
+			case b.Y == ssa.Value(x):
+				step = b.X
+			default:
+				return 0, false
+			}
+			if k, ok := c19LowerBound(step, depth+1); !ok || k < 0 {
+				return 0, false
+			} else if _, isC := step.(*ssa.Const); !isC {
+				return 0, false
+			}
+		}
+		return lb, have
+	case *ssa.BinOp:
+		if x.Op != token.ADD {
+			return 0, false
+		}
+		a, b := x.X, x.Y
+		if _, isC := a.(*ssa.Const); isC {
+			a, b = b, a
+		}
+		c, isC := b.(*ssa.Const)
+		if !isC {
+			return 0, false
+		}
+		k, ok1 := c19LowerBound(c, depth+1)
+		l, ok2 := c19LowerBound(a, depth+1)
+		if ok1 && ok2 {
+			return l + k, true
+		}
+	}
+	return 0, false
+}
+
+// c19CmpDecide: does `a op k` hold for the integer value a and the integer constant k? known=false when neither
+// the value (a constant) nor its lower bound decides it.
+func c19CmpDecide(a ssa.Value, op token.Token, k ssa.Value) (holds, known bool) {
+	kc, ok := k.(*ssa.Const)
+	if !ok || kc.Value == nil || kc.Value.Kind() != constant.Int {
+		return false, false
+	}
+	if ac, isC := a.(*ssa.Const); isC {
+		if ac.Value == nil || ac.Value.Kind() != constant.Int {
+			return false, false
+		}
+		return constant.Compare(ac.Value, op, kc.Value), true
+	}
+	lb, have := c19LowerBound(a, 0)
+	kv, exact := constant.Int64Val(kc.Value)
+	if !have || !exact {
+		return false, false
+	}
+	switch op {
+	case token.GEQ:
+		if lb >= kv {
+			return true, true
+		}
+	case token.GTR, token.NEQ:
+		if lb > kv {
+			return true, true
+		}
+	case token.LSS:
+		if lb >= kv {
+			return false, true
+		}
+	case token.LEQ, token.EQL:
+		if lb > kv {
+			return false, true
+		}
+	}
+	return false, false
+}
+
+// c19IndexSite is a CFG edge on which a phi of an integer web receives a value that is not a phi.
+type c19IndexSite struct {
+	From, To *ssa.BasicBlock
+	Val      ssa.Value
+}
+
+// c19IndexSites lists the edges over which the integer phi ph (and the phis it merges) receives its values.
+// ok=false when the web is carried round a loop (a phi of it sits in a loop header): then a value may have
+// entered it in an earlier iteration and what was known on its edge says nothing about the current one.
+func c19IndexSites(ph *ssa.Phi) (sites []c19IndexSite, ok bool) {
+	if bt, isB := ph.Type().Underlying().(*types.Basic); !isB || bt.Info()&types.IsInteger == 0 {
+		return nil, false
+	}
+	fn := ph.Parent()
+	headers := map[*ssa.BasicBlock]bool{}
+	for _, l := range Loops(fn) {
+		headers[l.Header] = true
+	}
+	seen := map[*ssa.Phi]bool{}
+	ok = true
+	var visit func(q *ssa.Phi)
+	visit = func(q *ssa.Phi) {
+		if seen[q] || !ok {
+			return
+		}
+		seen[q] = true
+		if headers[q.Block()] || len(seen) > 16 {
+			ok = false
+			return
+		}
+		for i, e := range q.Edges {
+			if in, isPhi := e.(*ssa.Phi); isPhi {
+				visit(in)
+				continue
+			}
+			sites = append(sites, c19IndexSite{q.Block().Preds[i], q.Block(), e})
+		}
+	}
+	visit(ph)
+	if !ok || len(sites) < 2 {
+		return nil, false
+	}
+	return sites, true
+}
+
+// c19Sentinel reads the comparison that holds by the branch outcome g as a selection among the alternatives of an
+// integer phi: the phi, and the sites for which the comparison holds. ok=false when g is not such a comparison,
+// when an alternative is not decided, or when the comparison does not exclude any alternative.
+func c19Sentinel(g Guard) (ph *ssa.Phi, selected []c19IndexSite, ok bool) {
+	x, y, op, isCmp := CmpFact(g.Cond, g.True)
+	if !isCmp {
+		return nil, nil, false
+	}
+	ph, isPhi := x.(*ssa.Phi)
+	if !isPhi {
+		return nil, nil, false
+	}
+	sites, okS := c19IndexSites(ph)
+	if !okS {
+		return nil, nil, false
+	}
+	for _, s := range sites {
+		holds, known := c19CmpDecide(s.Val, op, y)
+		if !known {
+			return nil, nil, false
+		}
+		if holds {
+			selected = append(selected, s)
+		}
+	}
+	if len(selected) == 0 || len(selected) == len(sites) {
+		return nil, nil, false
+	}
+	return ph, selected, true
+}
+
+// c19SentinelGuards adds to gs what follows from outcomes that select among the alternatives of a search result:
+// the branch outcomes known on every edge over which a selected alternative arrives.
+func c19SentinelGuards(gs []Guard) []Guard {
+	out := append([]Guard{}, gs...)
+	for _, g := range gs {
+		_, sel, ok := c19Sentinel(g)
+		if !ok {
+			continue
+		}
+		var common []Guard
+		for i, s := range sel {
+			cs := condsAt(s.From, s.To)
+			if i == 0 {
+				common = cs
+			} else {
+				common = intersectGuards(common, cs)
+			}
+		}
+		for _, c := range common {
+			dup := false
+			for _, o := range out {
+				if sameGuard(o, c) {
+					dup = true
+				}
+			}
+			if !dup {
+				out = append(out, c)
+			}
+		}
+	}
+	return out
+}
+
+// c19NarrowIndex: the value v is known to be under the outcomes gs: v itself, or - for a search result of which
+// gs select alternatives that all carry one value - that value.
+func c19NarrowIndex(v ssa.Value, gs []Guard) ssa.Value {
+	for _, g := range gs {
+		ph, sel, ok := c19Sentinel(g)
+		if !ok || ssa.Value(ph) != v {
+			continue
+		}
+		same := true
+		for _, s := range sel {
+			if s.Val != sel[0].Val {
+				same = false
+			}
+		}
+		if same {
+			return sel[0].Val
+		}
+	}
+	return v
+}
+
+// c19BoolLeaves is retLeaves for a boolean result, with a comparison of a search result against a constant
+// (`return i >= 0`) split into the ways the search ends: one leaf per alternative of the phi, whose value is the
+// constant the comparison has for that alternative and whose outcomes include those of the alternative's edge.
+func c19BoolLeaves(fn *ssa.Function, idx int) []retLeaf {
+	var out []retLeaf
+	for _, lf := range retLeaves(fn, idx) {
+		x, y, op, isCmp := CmpFact(lf.Val, true)
+		ph, isPhi := x.(*ssa.Phi)
+		if !isCmp || !isPhi {
+			out = append(out, lf)
+			continue
+		}
+		sites, ok := c19IndexSites(ph)
+		var sub []retLeaf
+		for _, s := range sites {
+			holds, known := c19CmpDecide(s.Val, op, y)
+			if !known {
+				ok = false
+				break
+			}
+			l := lf
+			l.Val = ssa.NewConst(constant.MakeBool(holds), types.Typ[types.Bool])
+			l.Guards = append(append([]Guard{}, lf.Guards...), condsAt(s.From, s.To)...)
+			l.Block = s.From
+			sub = append(sub, l)
+		}
+		if !ok {
+			out = append(out, lf)
+			continue
+		}
+		out = append(out, sub...)
+	}
+	return out
 }
